@@ -1548,6 +1548,26 @@ func runC30y(c *Ctx) {
 			c.Guarded(fmt.Sprintf("%s.updateDatabags#fresh-map-only-when-none#%d", pkg, n), ud, st, []Clause{{noState, wasNil}}, &GOpt{NoVacuity: true})
 		}
 	}
+	// the same one level down: the account's map is replaced by a fresh one only when the account had none
+	isLoaded := func(v ssa.Value) bool {
+		u, ok := Strip(v).(*ssa.UnOp)
+		return ok && u.Op == token.MUL && u.X == ssa.Value(cell)
+	}
+	acctNil := Cmp("databags[account]==nil", lookupOf(isLoaded), token.EQL, isNilVal)
+	acctAbsent := Atom{Name: "account not in databags", Match: func(cd Cond) Pol { return cd.BoolIs(lookupOkOf(isLoaded)).Flip() }}
+	for _, b := range ud.Blocks {
+		for _, in := range b.Instrs {
+			mu, ok := in.(*ssa.MapUpdate)
+			if !ok || !isLoaded(mu.Map) {
+				continue
+			}
+			if _, fresh := Strip(mu.Value).(*ssa.MakeMap); !fresh {
+				continue
+			}
+			n++
+			c.Guarded(fmt.Sprintf("%s.updateDatabags#fresh-account-map-only-when-none#%d", pkg, n), ud, mu, []Clause{{acctNil, acctAbsent}}, &GOpt{NoVacuity: true})
+		}
+	}
 	// what is stored is that map
 	stSet := P.FuncObj("overlord/state.(*State).Set")
 	okSet := false
